@@ -210,4 +210,329 @@ theorem recv_sent (g : Bytes) (p : SProto) (d : Bytes) (hg : p.srv.serverGuid = 
           · exact recvLines_sent g p.dropFirst _ hg
       · exact recvLines_sent g p d hg
 
+/-! ## the lines the client's authenticator is handed -/
+
+/-- The server lines handed to the client's authenticator, in order. -/
+def recvs : List Ev → List Bytes
+  | [] => []
+  | .recv l :: t => l :: recvs t
+  | _ :: t => recvs t
+
+theorem recvs_append (a b : List Ev) : recvs (a ++ b) = recvs a ++ recvs b := by
+  induction a with
+  | nil => rfl
+  | cons e t ih => cases e <;> simp [recvs, ih]
+
+theorem recvs_sends (out : List Bytes) : recvs (out.map Ev.send) = [] := by
+  induction out with
+  | nil => rfl
+  | cons a t ih => simp [recvs, ih]
+
+theorem mem_recvs {l : Bytes} {tr : List Ev} : l ∈ recvs tr ↔ Ev.recv l ∈ tr := by
+  induction tr with
+  | nil => simp [recvs]
+  | cons e t ih => cases e <;> simp [recvs, ih]
+
+/-- The loop of `dataReceived` hands over a prefix of the lines it is given - all of them, leaving the buffer
+alone, if the client is still in line mode and open afterwards. -/
+theorem processLines_recvs (envAt : Nat → AuthClient.Env) (ls : List Bytes) : ∀ p : CProto,
+    ∃ j, recvs (AuthClient.processLines envAt p ls).trace = recvs p.trace ++ ls.take j ∧
+      (((AuthClient.processLines envAt p ls).authenticated = false ∧
+        (AuthClient.processLines envAt p ls).disconnecting = false) →
+        j = ls.length ∧ (AuthClient.processLines envAt p ls).buffer = p.buffer) := by
+  induction ls with
+  | nil =>
+    intro p
+    refine ⟨0, ?_, ?_⟩
+    · unfold AuthClient.processLines
+      split <;> simp [AuthClient.Proto.close, recvs_append, recvs]
+    · intro _
+      refine ⟨rfl, ?_⟩
+      unfold AuthClient.processLines
+      split <;> simp [AuthClient.Proto.close]
+  | cons l ls ih =>
+    intro p
+    obtain ⟨auth, buffer, disc, authd, binary, seen, trace⟩ := p
+    unfold AuthClient.processLines
+    cases disc with
+    | true => exact ⟨0, by simp, fun h => by simp at h⟩
+    | false =>
+      by_cases hlen : l.length > AuthClient.maxAuth
+      · refine ⟨0, by simp [hlen, AuthClient.Proto.close, recvs_append, recvs], fun h => ?_⟩
+        simp [hlen, AuthClient.Proto.close] at h
+      · cases hh : AuthClient.handleAuthMessage (envAt seen) auth l with
+        | error e =>
+          simp only [hlen, hh, Bool.false_eq_true, if_false]
+          obtain ⟨j, h1, h2⟩ := ih (AuthClient.Proto.close ⟨auth, buffer, false, authd, binary, seen + 1, trace ++ [Ev.recv l]⟩)
+          refine ⟨j + 1, ?_, fun h => ?_⟩
+          · rw [h1]; simp [AuthClient.Proto.close, recvs_append, recvs]
+          · obtain ⟨hj, hb⟩ := h2 h
+            exact ⟨by simp [hj], by rw [hb]; rfl⟩
+        | ok r =>
+          obtain ⟨a, out⟩ := r
+          simp only [hlen, hh, Bool.false_eq_true, if_false]
+          by_cases ha : a.authenticated = true
+          · simp only [ha, if_true]
+            refine ⟨1, ?_, fun h => ?_⟩
+            · simp [recvs_append, recvs, recvs_sends]
+            · simp at h
+          · have ha' : a.authenticated = false := by simpa using ha
+            simp only [ha', Bool.false_eq_true, if_false]
+            obtain ⟨j, h1, h2⟩ := ih ⟨a, buffer, false, authd, binary, seen + 1, trace ++ [Ev.recv l] ++ out.map Ev.send⟩
+            refine ⟨j + 1, ?_, fun h => ?_⟩
+            · rw [h1]; simp [recvs_append, recvs, recvs_sends]
+            · obtain ⟨hj, hb⟩ := h2 h
+              exact ⟨by simp [hj], hb⟩
+
+/-- A closed client is handed nothing more, and stays closed. -/
+theorem processLines_closed (envAt : Nat → AuthClient.Env) (ls : List Bytes) (p : CProto)
+    (hd : p.disconnecting = true) :
+    recvs (AuthClient.processLines envAt p ls).trace = recvs p.trace ∧
+    (AuthClient.processLines envAt p ls).disconnecting = true := by
+  cases ls with
+  | nil =>
+    unfold AuthClient.processLines
+    split
+    · simp [AuthClient.Proto.close, recvs_append, recvs]
+    · exact ⟨rfl, hd⟩
+  | cons l t =>
+    unfold AuthClient.processLines
+    simp [hd]
+
+/-- What the client's framing finds in a prefix `x` of clean lines on the wire: some of the lines, whole, and a
+remainder that together with the rest is the wire form of the other lines. -/
+theorem split_prefix_wire (L : List Bytes) (hL : ∀ l ∈ L, NoCR l) : ∀ (x rest : Bytes), x ++ rest = wireS L →
+    ∃ j, j ≤ L.length ∧ (AuthClient.splitCRLF x).1 = L.take j ∧ (AuthClient.splitCRLF x).2 ++ rest = wireS (L.drop j) := by
+  induction L with
+  | nil =>
+    intro x rest h
+    have hx : x = [] := by
+      cases x with
+      | nil => rfl
+      | cons a t => simp [wireS] at h
+    subst hx
+    exact ⟨0, Nat.le_refl _, rfl, by simpa [AuthClient.splitCRLF] using h⟩
+  | cons l t ih =>
+    intro x rest h
+    have hl : NoCR l := hL l (by simp)
+    have hw : wireS (l :: t) = (l ++ [13, 10]) ++ wireS t := by simp [wireS]
+    rw [hw] at h
+    rcases List.append_eq_append_iff.1 h with ⟨a', h1, h2⟩ | ⟨c', h1, h2⟩
+    · by_cases ha : a' = []
+      · subst ha
+        have hx : x = l ++ [13, 10] := by simpa using h1.symm
+        refine ⟨1, by simp, ?_, ?_⟩
+        · rw [hx]
+          have := AuthClient.splitCRLF_line (hasCRLF_of_noCR hl) []
+          simp only [AuthClient.splitCRLF] at this
+          simpa using congrArg Prod.fst this
+        · rw [hx]
+          have := AuthClient.splitCRLF_line (hasCRLF_of_noCR hl) []
+          simp only [AuthClient.splitCRLF] at this
+          have h3 := congrArg Prod.snd this
+          simp only at h3
+          rw [show l ++ [13, 10] = l ++ 13 :: 10 :: [] from rfl, h3]
+          simpa using h2
+      · refine ⟨0, Nat.zero_le _, ?_, ?_⟩
+        · rw [AuthClient.splitCRLF_noCRLF (cli_noCRLF_proper hl h1.symm ha)]; rfl
+        · rw [AuthClient.splitCRLF_noCRLF (cli_noCRLF_proper hl h1.symm ha)]
+          show x ++ rest = wireS (l :: t)
+          rw [hw, ← h]
+    · obtain ⟨j, hj, k1, k2⟩ := ih (fun y hy => hL y (by simp [hy])) c' rest h2.symm
+      refine ⟨j + 1, by simp; omega, ?_, ?_⟩
+      · rw [h1, show (l ++ [13, 10]) ++ c' = l ++ 13 :: 10 :: c' by simp,
+          AuthClient.splitCRLF_line (hasCRLF_of_noCR hl) c']
+        simp [k1]
+      · rw [h1, show (l ++ [13, 10]) ++ c' = l ++ 13 :: 10 :: c' by simp,
+          AuthClient.splitCRLF_line (hasCRLF_of_noCR hl) c']
+        simpa using k2
+
+/-! ## the invariant: what the client was handed is what the bus wrote -/
+
+/-- The lines handed to the client's authenticator are the first `k` lines the bus wrote; while the client is
+open and in line mode, its buffer followed by the queue is the wire form of the other lines the bus wrote. -/
+structure Wire (cfg : Cfg) (st : State) : Prop where
+  guid : st.s.srv.serverGuid = cfg.guid
+  forms : ∀ l ∈ st.s.sent, SentForm cfg.guid l
+  tie : ∃ k, k ≤ st.s.sent.length ∧ recvs st.c.trace = st.s.sent.take k ∧
+    ((st.c.authenticated = false ∧ st.c.disconnecting = false) →
+      st.c.buffer ++ st.s2c = wireS (st.s.sent.drop k))
+
+theorem wire_init (cfg : Cfg) : Wire cfg (init cfg) := by
+  refine ⟨rfl, fun _ hl => (nomatch hl), 0, Nat.le_refl _, ?_, ?_⟩
+  · show recvs (AuthClient.connectionMade _ _ _).trace = []
+    unfold AuthClient.connectionMade
+    simp only
+    split
+    · simp [AuthClient.Proto.close, recvs]
+    · simp [recvs, recvs_append, recvs_sends]
+  · intro _
+    show (AuthClient.connectionMade _ _ _).buffer ++ [] = wireS []
+    unfold AuthClient.connectionMade
+    simp only
+    split <;> rfl
+
+theorem wire_feedS {cfg : Cfg} {st : State} (h : Wire cfg st) (d rest : Bytes) (hq : st.c2s = d ++ rest) :
+    Wire cfg (feedS st d rest) := by
+  obtain ⟨⟨new, h1, h2⟩, h3⟩ := recv_sent cfg.guid st.s d h.guid
+  obtain ⟨k, hk, ht, hl⟩ := h.tie
+  unfold feedS
+  refine ⟨h3, ?_, k, ?_, ?_, ?_⟩
+  · intro l hl'
+    rw [h1] at hl'
+    rcases List.mem_append.1 hl' with hl' | hl'
+    · exact h.forms l hl'
+    · exact h2 l hl'
+  · show k ≤ (AuthServer.recv real st.s d).sent.length
+    rw [h1, List.length_append]; omega
+  · show recvs st.c.trace = (AuthServer.recv real st.s d).sent.take k
+    rw [h1, List.take_append_of_le_length hk]; exact ht
+  · intro hlive
+    show st.c.buffer ++ (st.s2c ++ wireS ((AuthServer.recv real st.s d).sent.drop st.s.sent.length)) =
+      wireS ((AuthServer.recv real st.s d).sent.drop k)
+    rw [h1, List.drop_left, List.drop_append_of_le_length hk, wireS_append, ← List.append_assoc, hl hlive]
+
+theorem take_add_prefix (sent P : List Bytes) (k : Nat) (h : P <+: sent.drop k) :
+    sent.take k ++ P = sent.take (k + P.length) := by
+  rw [List.take_add, List.prefix_iff_eq_take.1 h]
+  simp
+
+theorem wire_feedC {cfg : Cfg} (hg : NoCR cfg.guid) {st : State} (h : Wire cfg st) (d rest : Bytes)
+    (hq : st.s2c = d ++ rest) : Wire cfg (feedC cfg st d rest) := by
+  obtain ⟨k, hk, ht, hl⟩ := h.tie
+  unfold feedC
+  refine ⟨h.guid, h.forms, ?_⟩
+  show ∃ k', k' ≤ st.s.sent.length ∧
+    recvs (AuthClient.dataReceived (fun _ => envOf cfg st.s.srv.world) st.c d).trace = st.s.sent.take k' ∧
+    (((AuthClient.dataReceived (fun _ => envOf cfg st.s.srv.world) st.c d).authenticated = false ∧
+      (AuthClient.dataReceived (fun _ => envOf cfg st.s.srv.world) st.c d).disconnecting = false) →
+      (AuthClient.dataReceived (fun _ => envOf cfg st.s.srv.world) st.c d).buffer ++ rest = wireS (st.s.sent.drop k'))
+  by_cases ha : st.c.authenticated = true
+  · have hdr : AuthClient.dataReceived (fun _ => envOf cfg st.s.srv.world) st.c d =
+        { st.c with binary := st.c.binary ++ d } := by
+      unfold AuthClient.dataReceived; rw [if_pos ha]
+    rw [hdr]
+    exact ⟨k, hk, ht, fun hh => by rw [show ({ st.c with binary := st.c.binary ++ d } : CProto).authenticated = true from ha] at hh; exact absurd hh.1 (by decide)⟩
+  · have ha' : st.c.authenticated = false := by simpa using ha
+    have hdr : AuthClient.dataReceived (fun _ => envOf cfg st.s.srv.world) st.c d =
+        AuthClient.processLines (fun _ => envOf cfg st.s.srv.world)
+          { st.c with buffer := (AuthClient.splitCRLF (st.c.buffer ++ d)).2 } (AuthClient.splitCRLF (st.c.buffer ++ d)).1 := by
+      unfold AuthClient.dataReceived; rw [if_neg ha]
+    rw [hdr]
+    by_cases hd : st.c.disconnecting = true
+    · obtain ⟨c1, c2⟩ := processLines_closed (fun _ => envOf cfg st.s.srv.world)
+        (AuthClient.splitCRLF (st.c.buffer ++ d)).1 { st.c with buffer := (AuthClient.splitCRLF (st.c.buffer ++ d)).2 } hd
+      refine ⟨k, hk, by rw [c1]; exact ht, fun hh => ?_⟩
+      rw [c2] at hh
+      exact absurd hh.2 (by decide)
+    · have hd' : st.c.disconnecting = false := by simpa using hd
+      have hwire := hl ⟨ha', hd'⟩
+      rw [hq, ← List.append_assoc] at hwire
+      have hclean : ∀ l ∈ st.s.sent.drop k, NoCR l := fun l hl' =>
+        sentForm_clean hg (h.forms l (List.mem_of_mem_drop hl'))
+      obtain ⟨j, hj, s1, s2⟩ := split_prefix_wire (st.s.sent.drop k) hclean (st.c.buffer ++ d) rest hwire
+      obtain ⟨j', p1, p2⟩ := processLines_recvs (fun _ => envOf cfg st.s.srv.world)
+        (AuthClient.splitCRLF (st.c.buffer ++ d)).1 { st.c with buffer := (AuthClient.splitCRLF (st.c.buffer ++ d)).2 }
+      have hpre : ((AuthClient.splitCRLF (st.c.buffer ++ d)).1.take j') <+: st.s.sent.drop k := by
+        rw [s1]
+        exact (List.take_prefix _ _).trans (List.take_prefix _ _)
+      have hlen : ((AuthClient.splitCRLF (st.c.buffer ++ d)).1.take j').length ≤ (st.s.sent.drop k).length :=
+        hpre.length_le
+      refine ⟨k + ((AuthClient.splitCRLF (st.c.buffer ++ d)).1.take j').length, ?_, ?_, fun hh => ?_⟩
+      · rw [List.length_drop] at hlen; omega
+      · rw [p1]
+        show recvs st.c.trace ++ _ = _
+        rw [ht]
+        exact take_add_prefix _ _ _ hpre
+      · obtain ⟨q1, q2⟩ := p2 hh
+        rw [q2]
+        show (AuthClient.splitCRLF (st.c.buffer ++ d)).2 ++ rest = _
+        rw [s2, q1, List.take_length, s1, List.length_take, List.length_drop, List.drop_drop]
+        have : min j (st.s.sent.length - k) = j := by rw [List.length_drop] at hj; omega
+        rw [this, Nat.add_comm]
+
+/-- Every move keeps the tie between what the client was handed and what the bus wrote. -/
+theorem wire_step {cfg : Cfg} (hg : NoCR cfg.guid) {st : State} (h : Wire cfg st) (m : Move) :
+    Wire cfg (step cfg st m) := by
+  cases m with
+  | toServer n =>
+    show Wire cfg (toServer n st)
+    unfold toServer
+    split
+    · exact h
+    · rename_i a t hq
+      exact wire_feedS h _ _ (by rw [hq]; exact (List.take_append_drop _ _).symm)
+  | toClient n =>
+    show Wire cfg (toClient cfg n st)
+    unfold toClient
+    split
+    · exact h
+    · rename_i a t hq
+      exact wire_feedC hg h _ _ (by rw [hq]; exact (List.take_append_drop _ _).symm)
+
+theorem wire_run {cfg : Cfg} (hg : NoCR cfg.guid) (ms : List Move) : ∀ {st : State}, Wire cfg st →
+    Wire cfg (run cfg st ms) := by
+  induction ms with
+  | nil => intro st h; exact h
+  | cons m t ih => intro st h; exact ih (wire_step hg h m)
+
+/-! ## C07's invariant in the composition -/
+
+theorem invB_step {cfg : Cfg} {st : State} (h : AuthClient.InvB cfg.unix st.c.core) (m : Move) :
+    AuthClient.InvB cfg.unix (step cfg st m).c.core := by
+  cases m with
+  | toServer n =>
+    show AuthClient.InvB cfg.unix (toServer n st).c.core
+    unfold toServer
+    split
+    · exact h
+    · exact h
+  | toClient n =>
+    show AuthClient.InvB cfg.unix (toClient cfg n st).c.core
+    unfold toClient
+    split
+    · exact h
+    · obtain ⟨steps, hs⟩ := AuthClient.dataReceived_core (fun _ => envOf cfg st.s.srv.world) st.c
+        (st.s2c.take (n + 1))
+      show AuthClient.InvB cfg.unix (AuthClient.dataReceived _ st.c _).core
+      rw [hs]
+      exact h.run steps
+
+theorem invB_run {cfg : Cfg} (ms : List Move) : ∀ {st : State}, AuthClient.InvB cfg.unix st.c.core →
+    AuthClient.InvB cfg.unix (run cfg st ms).c.core := by
+  induction ms with
+  | nil => intro st h; exact h
+  | cons m t ih => intro st h; exact ih (invB_step h m)
+
+theorem invB_init (cfg : Cfg) : AuthClient.InvB cfg.unix (init cfg).c.core :=
+  AuthClient.InvB.init _ cfg.unix _
+
+/-- Every line handed to the client's authenticator was written by the bus. -/
+theorem recv_was_sent {cfg : Cfg} {st : State} (h : Wire cfg st) (l : Bytes) (hl : Ev.recv l ∈ st.c.trace) :
+    l ∈ st.s.sent := by
+  obtain ⟨k, _, ht, _⟩ := h.tie
+  have : l ∈ recvs st.c.trace := mem_recvs.2 hl
+  rw [ht] at this
+  exact List.mem_of_mem_take this
+
+/-- A BEGIN in the client's trace is justified (C07) by an OK line that the bus wrote. -/
+theorem begin_needs_bus_ok {cfg : Cfg} {st : State} (hw : Wire cfg st) (hb : AuthClient.InvB cfg.unix st.c.core)
+    (h : Ev.send AuthClient.lBEGIN ∈ st.c.trace) : ∃ okl ∈ st.s.sent, AuthClient.OkLine okl := by
+  obtain ⟨pre, post, hsplit⟩ := List.append_of_mem h
+  obtain ⟨okl, hok, hj⟩ := hb.begins pre post hsplit
+  refine ⟨okl, recv_was_sent hw okl ?_, hok⟩
+  have hpre : Ev.recv okl ∈ pre := by
+    cases hu : cfg.unix with
+    | true =>
+      rw [hu] at hj
+      simp only [if_true] at hj
+      obtain ⟨ans, _, hs⟩ := hj
+      exact hs.subset (by simp)
+    | false =>
+      rw [hu] at hj
+      simpa using hj
+  show Ev.recv okl ∈ st.c.trace
+  rw [hsplit]
+  exact List.mem_append_left _ hpre
+
 end Txdbus.Handshake2
